@@ -353,7 +353,7 @@ func argValues(t reflect.Type) []reflect.Value {
 	return intArgs(t)
 }
 
-var intArgs = observe.IntArgs(0, 1, 3, 16, 17, 255)
+var intArgs = observe.IntArgs(0, 17)
 
 // ---------------------------------------------------------------- uses
 
